@@ -1,4 +1,5 @@
 import BV.Model.MatchFinder
+import BV.Model.Cbr
 import BV.Drive.Hasher
 /-!
 Line protocol of `hasher flm` (FindLongestMatch; supports C01):
@@ -81,6 +82,77 @@ def handle : List String → String
             | some (f, o, b, c) => showRes (some (f, o, ⟨st.num, b⟩, c))
           | .adv P => showRes (Adv.findLongestMatch P (natArg numLast) lbs dq data mask cache cur ml mb md out st c)
           | .h9 P => showRes (H9.findLongestMatch P lbs dq data mask cache cur ml mb md out st c)
+      | _ => "bad-op"
+  | _ => "bad-op"
+
+/-! `hasher cbr` lines (CreateBackwardReferences):
+
+  `hasher cbr <kind> <mask> <data> <pre-ops…> C <quality> <lgwin> <max_distance> <np> <nd> <position> <num_bytes>
+       <cache,16> <last_insert_len> <num_literals> <lookups:hits:use_dict> <num_last> <lbs> [D<cm>=slots]…`
+answer: `<n_cmds> <cmd_digest> <cache,16> <last_insert_len> <num_literals> <num_digest> <buckets_digest> <lookups> <hits>` | `panic` -/
+
+open BV.Cbr in
+def showCbr {H : Type} (r : Option (BV.Cbr.Result H)) (tabs : H → AdvSt × Common) : String :=
+  match r with
+  | none => "panic"
+  | some res =>
+    let d := res.cmds.foldl (fun h (c : BV.Recoder.Cmd) =>
+      fnvStep (fnvStep (fnvStep (fnvStep (fnvStep h c.insertLen) c.copyLenField) c.distExtra) c.cmdPrefix) c.distPrefix) fnvInit
+    let (st, c) := tabs res.h
+    let (dn, _) := digestTab st.num
+    let (db, _) := digestTab st.buckets
+    let cache := ",".intercalate (res.cache.map toString)
+    s!"{res.cmds.length} {d} {cache} {res.lastInsertLen} {res.numLiterals} {dn} {db} {c.lookups} {c.hits}"
+
+def parseSlots (toks : List String) : List (Nat × List DictItem) :=
+  toks.filterMap fun t =>
+    if t.startsWith "D" then
+      match (t.drop 1).toString.splitOn "=" with
+      | [cm, items] =>
+        some (natArg cm, (items.splitOn "+").filterMap fun it =>
+          match it.splitOn "." with
+          | [i, b, w] => some ⟨natArg i, natArg b, hexToBytes w⟩
+          | _ => none)
+      | _ => none
+    else none
+
+def handleCbr : List String → String
+  | kindTok :: mask :: data :: rest =>
+    match parseKind kindTok with
+    | none => "bad-op"
+    | some (k, st) =>
+      let mask := if mask = "max" then USIZE_MAX else natArg mask
+      let data := parseData data
+      let pre := rest.takeWhile (· ≠ "C")
+      match rest.dropWhile (· ≠ "C") with
+      | _ :: q :: lgwin :: md :: np :: nd :: pos :: nb :: cache :: lil :: nlit :: dict :: numLast :: lbs :: slots =>
+        match runPre k data mask pre st with
+        | none => "panic"
+        | some none => "bad-op"
+        | some (some st) =>
+          let cache : List Int := (cache.splitOn ",").map intArg
+          let (useDict, c) : Bool × Common := match dict.splitOn ":" with
+            | [l, m, u] => (u = "1", ⟨natArg l, natArg m⟩)
+            | _ => (false, ⟨0, 0⟩)
+          let table := parseSlots slots
+          let p : BV.Cbr.Params := ⟨natArg q, natArg lgwin, natArg md, natArg np, natArg nd⟩
+          let lbs := natArg lbs
+          let dictFn (shallow : Bool) : ByteArray → Nat → Option (List DictItem) := fun _ cm =>
+            if useDict then
+              match table.find? (·.1 == cm) with
+              | some (_, its) => some its
+              | none => some (List.replicate (if shallow then 1 else 2) ⟨0, 0, []⟩)
+            else none
+          match k with
+          | .basic P =>
+            showCbr (BV.Cbr.createBackwardReferences (BV.Cbr.basicOps P (useDictOf kindTok) lbs (dictFn true) data mask) p
+              (natArg nb) (natArg pos) (st.buckets, c) cache (natArg lil) (natArg nlit)) (fun (b, c) => (⟨st.num, b⟩, c))
+          | .adv P =>
+            showCbr (BV.Cbr.createBackwardReferences (BV.Cbr.advOps P (natArg numLast) lbs (dictFn false) data mask) p
+              (natArg nb) (natArg pos) (st, c) cache (natArg lil) (natArg nlit)) id
+          | .h9 P =>
+            showCbr (BV.Cbr.createBackwardReferences (BV.Cbr.h9Ops P lbs (dictFn false) data mask) p
+              (natArg nb) (natArg pos) (st, c) cache (natArg lil) (natArg nlit)) id
       | _ => "bad-op"
   | _ => "bad-op"
 
